@@ -1,0 +1,39 @@
+//go:build verif
+
+// Contracts for the deductive verifier in /verif (govc). This file is compiled only with
+// -tags verif and contains no production code: contracts are the //@ comment blocks, keyed by
+// function name and loop ordinal; lemma harnesses are ordinary functions that call the real
+// code and end in verifAssert.
+
+package uacp
+
+func verifAssert(label string, cond bool) {
+	if !cond {
+		panic("verif: assertion failed: " + label)
+	}
+}
+
+func verifCanary(label string, cond bool) {}
+
+// ---------------------------------------------------------------------------
+// C05: UACP framing; C20: delivered frames are fresh
+// ---------------------------------------------------------------------------
+
+// connection invariant: negotiated buffer sizes are at least the protocol minimum (which is what lets
+// Receive slice the header out of its buffer)
+//@ pred connInv(c *Conn) := c != nil && c.ack != nil && c.ack.ReceiveBufSize >= 8192 && c.ack.SendBufSize >= 8192
+
+//@ func (*Conn).Receive
+//@   props C05 C20 C13
+//@   bytes
+//@   requires connInv(c)
+//@   let pos = io.streamPos(c)
+//@   assigns io.streamPos(c)
+//@   ensures [C05:size] err == nil ==> 8 <= len(result0) && len(result0) <= int(c.ack.ReceiveBufSize) &&
+//@           int(le32(result0, 4)) == len(result0)
+//@   ensures [C05:content] err == nil ==> forall i int :: { at(result0, i) } off(result0) <= i && i < off(result0) + len(result0) ==>
+//@           at(result0, i) == io.streamAt(ref(c), pos + (i - off(result0)))
+//@   ensures [C05:advance] err == nil ==> io.streamPos(c) == pos + len(result0)
+//@   ensures [C05:error-nothing] err != nil ==> len(result0) == 0
+//@   ensures [C20:fresh] err == nil ==> fresh(result0)
+//@   canary ensures [C05:canary-advance-8] err == nil ==> io.streamPos(c) == pos + 8
